@@ -25,7 +25,7 @@ Inductive expr :=
 | EMakeContext (parent globals : expr) (* environment.context_class(environment, parent, template_name, blocks, globals=globals) *)
 | EFlagAsync                           (* self.environment.is_async *)
 | EKeysDiff (c : expr)                 (* c.globals_keys - self.globals.keys() *)
-| EPick (keys c : expr)                (* {k: c.parent[k] for k in keys} *)
+| EPick (keys c : expr)                (* {k: c._globals[k] for k in keys} *)
 | EMakeModule (arg : option expr)      (* self.make_module(arg) *)
 | ESelfModule.                         (* self._module *)
 
@@ -87,7 +87,7 @@ Section Interp.
                        | _ => TypeErr end)
     | EPick ks c => bind (eval ks en cell) (fun vk => bind (eval c en cell) (fun vc =>
                       match vk, vc with
-                      | VKeys k, VCtxArg c' => match pick_parent k (c_parent c') with
+                      | VKeys k, VCtxArg c' => match pick_parent k (c_globals c') with
                                                | Ok d => Norm (VDict d) | Err _ => KeyErr end
                       | _, _ => TypeErr end))
     | EMakeModule None => Norm (VModule (MFresh None))
@@ -142,7 +142,7 @@ Definition gdm_ref (self_globals : env) (is_async : bool) (c : option ctx) (cell
   | Some c' =>
       match filter (fun k => negb (mem k (dkeys self_globals))) (c_gkeys c') with
       | [] => dflt
-      | keys => match pick_parent keys (c_parent c') with
+      | keys => match pick_parent keys (c_globals c') with
                 | Ok d => GModule (MFresh (Some d)) cell
                 | Err _ => GKeyError
                 end
@@ -206,10 +206,10 @@ Theorem gdm_ref_model : forall g c,
 Proof.
   intros g c. unfold gdm_ref, import_ctx.
   destruct (filter _ (c_gkeys c)) as [|k0 kr]; [reflexivity|].
-  destruct (pick_parent (k0 :: kr) (c_parent c)) as [d|e] eqn:Ep; [reflexivity|].
+  destruct (pick_parent (k0 :: kr) (c_globals c)) as [d|e] eqn:Ep; [reflexivity|].
   clear -Ep. revert e Ep. generalize (k0 :: kr). induction l as [|k r IH]; intros e H; [discriminate|].
-  cbn [pick_parent] in H. destruct (dget k (c_parent c)); [|now injection H as <-].
-  destruct (pick_parent r (c_parent c)) eqn:E2; [discriminate|]. injection H as <-. now apply IH.
+  cbn [pick_parent] in H. destruct (dget k (c_globals c)); [|now injection H as <-].
+  destruct (pick_parent r (c_globals c)) eqn:E2; [discriminate|]. injection H as <-. now apply IH.
 Qed.
 Theorem gdm_ref_default : forall g cell,
   gdm_ref g false None cell = match cell with Some m => GModule m (Some m) | None => GModule (MFresh None) (Some (MFresh None)) end.
